@@ -368,6 +368,29 @@ def tmpl_same_title_objects(rng, opts):
     return {key: [first, second], "properties": {"b": copy.deepcopy(first)}}
 
 
+def tmpl_nested_composition(rng, opts):
+    """Compositions nested in compositions of the same / another kind, over overlapping numeric or
+    string leaves, so that small values match several inner branches (oneOf is not associative)."""
+    numeric = [{"type": "integer"}, {"minimum": 0}, {"multipleOf": 2}, {"maximum": 10}, {"multipleOf": 3},
+               {"exclusiveMinimum": 4}, {"type": "number"}, {"enum": [0, 2, 4, 6]}, {"const": 6}]
+    strings = [{"type": "string"}, {"minLength": 2}, {"maxLength": 3}, {"pattern": "^a"}, {"pattern": "b$"}]
+    pool = numeric if rng.random() < 0.7 else strings
+    outer = rng.choice(["oneOf", "oneOf", "anyOf", "allOf"])
+    inner = outer if rng.random() < 0.6 else rng.choice(["oneOf", "anyOf", "allOf"])
+
+    def group(key):
+        return {key: [copy.deepcopy(x) for x in rng.sample(pool, k=rng.randint(2, 3))]}
+
+    branches = [group(inner)]
+    if rng.random() < 0.4:
+        branches[0] = {rng.choice(["allOf", "anyOf"]): [branches[0]]}  # wrapped in a single-member composition
+    branches += [copy.deepcopy(x) for x in rng.sample(pool, k=rng.randint(1, 2))]
+    if rng.random() < 0.3:
+        branches.append(group(inner))
+    rng.shuffle(branches)
+    return {outer: branches}
+
+
 def leaf(rng):
     roll = rng.random()
     if roll < 0.08:
@@ -399,7 +422,7 @@ def leaf(rng):
 
 TEMPLATES = [
     tmpl_required_additional, tmpl_pattern_overlap, tmpl_tuple, tmpl_composition_siblings,
-    tmpl_typelist_siblings, tmpl_lookalike_literals, tmpl_same_title_objects,
+    tmpl_typelist_siblings, tmpl_lookalike_literals, tmpl_same_title_objects, tmpl_nested_composition,
 ]
 
 
